@@ -28,6 +28,25 @@ PROPS = {
                 explanation=''),
     'C03': dict(level='proof', level_text='Verus proves that the polarity reaching the per-value layer is operator-not XOR prefix-not on both the unary and the binary path of the real eval_guard_access_clause, and the named-rule negation table', level_note='assumed: unary_operation/binary_operation depend on the polarity bit as contracted (bounded Kani units)', vgroups=['eval'], kunits=[], assumptions=EVAL_ASSUME,
                 not_under_contract=['operators.rs list-valued In/Eq flip'], explanation=''),
+    'C04': dict(level='proof', vgroups=['status', 'eval'], kunits=['U-cnf'], assumptions=EVAL_ASSUME,
+                level_text='order/repetition invariance is proved as lemmas over the aggregation spec functions (permutation = equal multisets, repetition = insertion of a copy; unbounded), composed with the conformance of the real aggregators to those spec functions (Verus unbounded for rule list / rule / when; Kani bounded for the CNF combinator)',
+                level_note='the history dimension (rule_status memo, lazy variable resolution, definition order of named rules) is NOT decided; CNF conformance is bounded (3x3)',
+                not_under_contract=['RootScope::rule_status memoisation', 'lazy resolve_variable', 'key capture'], explanation=''),
+    'C09': dict(level='proof', vgroups=['report', 'status', 'eval'], kunits=[], assumptions=EVAL_ASSUME + [
+                    'ASSUMED BTreeSet<String>/Vec::extend/HashMap::extend API models', 'assumed contract of report_all_failed_clauses_for_rules (one Rule entry per FAIL rule child)'],
+                level_text='Verus proves that compliant / not_applicable are exactly the PASS / SKIP rule children of the FileCheck node, status and name are copied, not_compliant has one Rule entry per FAIL child (callee contract), the partition lemma for distinct rule names, file status vs partitions, and that combine is the union with Status::and',
+                level_note='attribution of individual checks inside report_all_failed_clauses_for_rules is only an assumed contract here',
+                not_under_contract=['report_all_failed_clauses_for_rules body (clause-level attribution)'], explanation=''),
+    'C17': dict(level='proof', vgroups=['merge'], kunits=[], assumptions=COMMON_ASSUME + [
+                    'ASSUMED indexmap::IndexMap<String, PathAwareValue> API (insertion ordered, unique keys; contains_key, insert, by-value iteration routed through into_entries) and Vec::extend', 'Path::extend_str assumed (no contract needed)'],
+                level_text='Verus proves on the real PathAwareValue::merge: duplicate top-level key <=> Err(MultipleValues), otherwise the result holds every entry of both operands in order with aligned key bookkeeping; lists concatenate; other type pairs are IncompatibleError; plus the lemma that the key->value mapping of a disjoint union is order independent',
+                level_note='the call sites in validate.rs / structured.rs (I/O functions; one unwrap()s the error) are not under contract',
+                not_under_contract=['Validate::execute -i folding', 'structured reporter merge call (unwrap)'], explanation=''),
+    'C18': dict(level='other', vgroups=[], kunits=['U-count', 'U-conv', 'U-substr', 'U-join'], assumptions=KANI_ASSUME,
+                level_text='Kani proofs on the real built-in functions: complete over the numeric/char payloads of the converters, bounded (stated bounds) for every string-valued obligation',
+                level_note='to_upper/to_lower/url_decode/regex_replace/json_parse and the String arms of parse_* delegate to std / third-party code (trusted); composition laws are not decided',
+                not_under_contract=['to_upper', 'to_lower', 'url_decode', 'regex_replace', 'json_parse', 'parse_* on strings', 'now', 'parse_epoch'],
+                explanation='All string-valued obligations are bounded checks (strings <= 3 bytes, <= 3 arguments); the numeric/char converter obligations are complete over their payload domain. Bounded obligations are counted under bounded_obligations, never under discharged.'),
     'C06': dict(level='proof', level_text='the exit-code folding functions are proved equal to the severity order stated by the property, for all i32 arguments', level_note='the inline folds in Validate::execute / evaluate_rule / main are not under contract', vgroups=['exit'], kunits=[], assumptions=COMMON_ASSUME,
                 not_under_contract=['Validate::execute exit-code folding (inline, I/O)', 'evaluate_rule', 'main'], explanation=''),
 }
